@@ -692,6 +692,11 @@ ws_write_cb(void *arg)
 		ws_frame_fini(frame);
 		ws->closed = true;
 		nni_http_conn_close(ws->http);
+		// Nothing will be read any more either: fail the receives
+		// that are waiting (a read that is completing successfully
+		// right now is not aborted by the close above, and reading
+		// is not resumed on a closed websocket).
+		ws_close(ws, 0);
 		nni_mtx_unlock(&ws->mtx);
 		return;
 	}
